@@ -231,6 +231,11 @@ class MemoryFile(File):
   def seek(self, offset: int, whence: Literal[0, 1, 2] = 0) -> int:
     return self._buffer.seek(offset, whence)
 
+  def truncate(self) -> None:
+    """Drops the content of the file."""
+    self._buffer.seek(0)
+    self._buffer.truncate()
+
   def tell(self) -> int:
     return self._buffer.tell()
 
@@ -275,7 +280,7 @@ class MemoryFileSystem(FileSystem):
     file = self._locate(path)
     if isinstance(file, dict):
       raise IsADirectoryError(path)
-    if 'w' in mode and file is None:
+    if ('w' in mode or 'a' in mode) and file is None:
       parent_dir, name = self._parent_and_name(path)
       if isinstance(parent_dir, dict):
         buffer = io.BytesIO() if 'b' in mode else io.StringIO()
@@ -284,6 +289,12 @@ class MemoryFileSystem(FileSystem):
 
     if file is None:
       raise FileNotFoundError(path)
+    if 'w' in mode:
+      # Writing starts from an empty file.
+      file.truncate()
+    elif 'a' in mode:
+      # Appending starts from the end of the file.
+      file.seek(0, 2)
     return file
 
   def chmod(self, path: Union[str, os.PathLike[str]], mode: int) -> None:
